@@ -301,6 +301,37 @@ def dissim_allows_unlabelled(dspec):
     return dissim_labels(dspec) is None
 
 
+_custom = {}
+
+
+def linear_positional_class():
+    """A user-defined positional dissimilarity (the combined dissimilarity's positional component is pluggable): the
+    sporadic distance without the square, in both forms."""
+    if "linear" not in _custom:
+        import numpy as np
+        from pygamma_agreement.dissimilarity import AbstractDissimilarity, dissimilarity_dec
+
+        class LinearPositionalDissimilarity(AbstractDissimilarity):
+            _verif_custom = "linear"
+
+            def __init__(self, delta_empty=1.0):
+                super().__init__(delta_empty=delta_empty)
+
+            def compile_d_mat(self):
+                delta_empty = self.delta_empty
+
+                @dissimilarity_dec
+                def d_mat(unit1, unit2):
+                    return ((np.abs(unit1[0] - unit2[0]) + np.abs(unit1[1] - unit2[1])) / (unit1[2] + unit2[2])) * delta_empty
+                return d_mat
+
+            def d(self, unit1, unit2):
+                return ((abs(unit1.segment.start - unit2.segment.start) + abs(unit1.segment.end - unit2.segment.end)) /
+                        (unit1.segment.duration + unit2.segment.duration)) * self.delta_empty
+        _custom["linear"] = LinearPositionalDissimilarity
+    return _custom["linear"]
+
+
 def build_dissim(dspec):
     import numpy as np
     import pygamma_agreement as pa
@@ -322,7 +353,8 @@ def build_dissim(dspec):
     if k == "numerical":
         return pa.NumericalCategoricalDissimilarity(list(dspec["cats"]), delta_empty=d)
     if k == "combined":
-        pos = None if dspec.get("pos") is None else pa.PositionalSporadicDissimilarity(dspec["pos"]["delta"])
+        pos = None if dspec.get("pos") is None else (
+            linear_positional_class() if dspec["pos"].get("custom") == "linear" else pa.PositionalSporadicDissimilarity)(dspec["pos"]["delta"])
         cat = None if dspec.get("cat") is None else build_dissim(dspec["cat"])
         kwargs = {}            # components that are not given are OMITTED (the signature's defaults apply), not passed as None
         if pos is not None:
